@@ -125,7 +125,7 @@ func build(c *conCase, seq int) (l *live, herr error) {
 			parent = tu
 		}
 		l.tu = parent
-	case "rect-cid":
+	case "rect-cid", "wide-cid":
 		f := &cmap.File{Name: fmt.Sprintf("Verif-%d-R", seq), ROS: ros, WMode: wmode, CodeSpaceRange: csr}
 		for _, r := range c.File.Ranges {
 			f.CIDRanges = append(f.CIDRanges, cmap.Range{First: toBytes(r.First), Last: toBytes(r.Last), Value: cmap.CID(*r.V)})
@@ -194,6 +194,12 @@ func query(c *conCase, stage string, fc *cmap.File, ft *cmap.ToUnicodeFile, code
 		for code, v := range fc.All(codec) {
 			buf = codec.AppendCode(buf[:0], code)
 			rec.All = append(rec.All, entry{C: toInts(buf), V: cidVal(int(v))})
+			if c.Kind == "wide-cid" && len(rec.All) >= 3000 {
+				break // a range of 2^32 codes: the beginning of the enumeration is judged
+			}
+		}
+		if c.Kind == "wide-cid" {
+			return rec
 		}
 		for code, v := range maps.Collect(fc.All(codec)) {
 			buf = codec.AppendCode(buf[:0], code)
